@@ -529,6 +529,9 @@ func TestC11(t *testing.T) {
 		if i%10 == 7 {
 			c11closeOrder(rep, seed, i/10)
 		}
+		if i%10 == 1 {
+			c11partialDrain(rep, seed, i/10)
+		}
 		if i%20 == 19 {
 			c11clients(rep, seed, i/20)
 		}
@@ -840,6 +843,70 @@ func c11closeOrder(rep *vh.Report, seed uint64, idx int) {
 	<-n.cons.done
 	rep.Count("scenarios_close_order", 1)
 	rep.Distinct("closeorder", idx, k, a)
+}
+
+// c11partialDrain: a link that stalls until its queue has overflowed (items beyond the bound are rightly discarded), takes a
+// few items, and stalls again: the backlog is below the bound now, so what is written at this moment is not dropped.
+func c11partialDrain(rep *vh.Report, seed uint64, idx int) {
+	if aborted() {
+		return
+	}
+	r := vh.Sub(seed, fmt.Sprintf("c11-partial-%d", idx))
+	hookReset(r.U64(), false, false)
+	k := 1 + r.Intn(3)
+	n := c13start(rep, k, false, false)
+	if n == nil {
+		return
+	}
+	n.cons.prop = "C11"
+	const fam = 0xCC
+	v := r.Intn(k)
+	tr := n.trs[v]
+	tr.BlockWrites()
+	for i := 0; i < 70+r.Intn(30); i++ { // overflow
+		_ = n.node.WriteMessageTo(n.chans[v], &MessageVfUid{Uid: uint64(fam)<<56 | uint64(i+1)})
+	}
+	waitFor(func() bool { return n.chans[v].VerifBacklog() >= 64 }, func() int64 { return int64(n.chans[v].VerifBacklog()) }, 300*time.Millisecond)
+	if n.chans[v].VerifBacklog() < 64 {
+		rep.Inconclusive("C11 partial drain: the queue did not fill")
+		safeClose(rep, n.node)
+		return
+	}
+	// the link takes a few items and stalls again
+	take := 8 + r.Intn(20)
+	base := tr.NWrites()
+	tr.BlockAgainAfter(take)
+	waitFor(func() bool { return tr.NWrites() >= base+take-1 && tr.Blocked() > 0 }, func() int64 { return int64(tr.NWrites()) }, 500*time.Millisecond)
+	backlog := n.chans[v].VerifBacklog()
+	var want []uint64
+	if backlog <= 56 {
+		for i := 0; i < 5; i++ {
+			uid := uint64(fam+1)<<56 | uint64(i+1)
+			want = append(want, uid)
+			if i%2 == 0 {
+				_ = n.node.WriteMessageTo(n.chans[v], &MessageVfUid{Uid: uid})
+			} else {
+				_ = n.node.WriteMessageAll(&MessageVfUid{Uid: uid})
+			}
+			time.Sleep(300 * time.Microsecond)
+		}
+	}
+	tr.UnblockWrites()
+	waitFor(func() bool { acc, _ := wireUIDs(tr, fam+1); return len(acc) >= len(want) }, func() int64 { return int64(tr.NWrites()) }, 800*time.Millisecond)
+	got, _ := wireUIDs(tr, fam+1)
+	rep.Eval(1)
+	if len(want) == 0 {
+		rep.Inconclusive(fmt.Sprintf("C11 partial drain: backlog %d after the link took %d items, nothing written", backlog, take))
+	} else if fmt.Sprint(got) != fmt.Sprint(want) {
+		rep.Violation("what=lost ep=custom", fmt.Sprintf("items written while the backlog was %d (< 64) after an earlier overflow: %d of %d came out", backlog, len(got), len(want)),
+			map[string]interface{}{"backlog_when_written": backlog, "taken_before": take, "got": got, "want": want})
+	}
+	if !safeClose(rep, n.node) {
+		return
+	}
+	<-n.cons.done
+	rep.Count("scenarios_partial_drain", 1)
+	rep.Distinct("partial", idx, k, v, take)
 }
 
 // c11tcp: the same fan-out properties over real TCP connections (server endpoint, k loopback peers).
